@@ -270,6 +270,8 @@ class SA(np.ndarray):
             if np.dtype(dtype) == object:
                 return self.copy()
             return np.asarray(self.view(np.ndarray).tolist()).astype(dtype)
+        if dtype is bool or dtype == np.bool_:
+            return NpProxy._as_bool_cells(self.view(np.ndarray))
         return self.copy()
 
     def all(self, axis=None, **k):
@@ -685,9 +687,20 @@ class NpProxy(types.ModuleType):
             return np.zeros_like(a, dtype=dtype, **k)
         return sa_zeros_like(a)
 
+    @staticmethod
+    def _as_bool_cells(a):
+        """dtype=bool conversion of symbolic cells: truth values (SymBool), so that ~ is logical not."""
+        out = np.empty(a.shape, dtype=object)
+        flat_in, flat_out = a.reshape(-1), out.reshape(-1)
+        for i, c in enumerate(flat_in):
+            flat_out[i] = SymBool(bool_term(c)) if _is_sym(c) else bool(c)
+        return out.view(SA)
+
     def array(self, obj, dtype=None, **k):
         if self._on():
             if isinstance(obj, np.ndarray) and obj.dtype == object and is_symbolic(obj):
+                if dtype is bool or dtype == np.bool_:
+                    return self._as_bool_cells(obj.view(np.ndarray))
                 return obj.copy().view(SA)
             if isinstance(obj, (list, tuple)) and len(obj) and is_symbolic(_flatten(obj)):
                 return _wrap(_obj_array(obj))
@@ -695,6 +708,8 @@ class NpProxy(types.ModuleType):
 
     def asarray(self, obj, dtype=None, **k):
         if self._on() and isinstance(obj, np.ndarray) and obj.dtype == object and is_symbolic(obj):
+            if dtype is bool or dtype == np.bool_:
+                return self._as_bool_cells(obj.view(np.ndarray))
             return obj.view(SA)
         return self.array(obj, dtype=dtype) if self._on() else np.asarray(obj, dtype=dtype, **k)
 
